@@ -155,6 +155,19 @@ def xattr_histories(sc, r, n):
                                          "why": "-X not given but user attributes %r appeared on the destination" % sorted(new.items())})
             cases.append("XA %d %s" % (c0, ",".join(toks)))
             observed.append(" | ".join(outs))
+            # (round 4) the attributes differ and the destination file does not take attribute changes (immutable): with -X that is a
+            # failure of the run, not a warning
+            if i % 8 == 1 and os.path.isfile(df):
+                os.setxattr(sf, "user.late", b"%d" % i)
+                if subprocess.run(["chattr", "+i", df], stderr=subprocess.DEVNULL).returncode == 0:
+                    try:
+                        rr = world.run_sy([src, dst, "-j1", "-q", "-X"], sc)
+                    finally:
+                        subprocess.run(["chattr", "-i", df])
+                    stats["immutable_destination_runs"] = stats.get("immutable_destination_runs", 0) + 1
+                    if rr["rc"] == 0 and uattrs(df) != uattrs(sf):
+                        viol.append({"world": "xattr-%d" % i, "history": ",".join(toks) + ",<destination immutable>,y:1", "prop": "C17",
+                                     "why": "-X given, the destination's attributes %r differ from the source's %r after the run (the file is immutable: setxattr fails) and the exit status is 0" % (sorted(uattrs(df).items()), sorted(uattrs(sf).items()))})
             shutil.rmtree(base, ignore_errors=True)
     finally:
         sc.env.clear(); sc.env.update(env_old)
